@@ -103,6 +103,8 @@ pub enum Expr {
    CBot,
    /// HProd::new(a, Dual(b))
    ProdOf(Box<Expr>, Box<Expr>),
+   /// first (u32) component of an HProd
+   ProdFst(Box<Expr>),
    /// `e as ty` between numeric types
    Cast(Box<Expr>, Ty),
    Cmp(CmpOp, Box<Expr>, Box<Expr>),
